@@ -5,7 +5,7 @@ or explicit ValueError about the options; shape, time axis, labels, first row.""
 import itertools, json, math
 from harness.common import fhex
 PID = "C07"; COQ_TARGET = "C07"
-RULE = ("exhaustive: {stochastic} x {delay None/False/True} x {safe} x {volume False/True/1.7/Volume()} x {dataframe, result object} x {Model, pre-built interface} = 192 "
+RULE = ("exhaustive: {stochastic} x {delay None/False/True} x {safe} x {volume False/True/1.7/Volume()/dividing StochasticTimeThresholdVolume} x {dataframe, result object} x {Model, pre-built interface} = 240 "
         "combinations x 4 models (with/without delayed reactions, with/without assignment rules), uniform grid from 0; non-trivial = every combination")
 TRUSTED = ["hand model coq/Model/Dispatch.v tied by exhaustive correspondence over the option lattice"]
 ASSUMPTIONS = ["numeric volumes are positive (quantifier)", "shape / label / first-row clauses are decided by the harness oracle on the lattice; mechanised only for the SSA loop's row count"]
@@ -19,7 +19,7 @@ MODELS = {
                  "rules": [["assignment", {"equation": "R = A + B"}]], "x0": {"A": 9.0, "B": 2.0, "R": 0.0}},
 }
 FIRST_ROW = {"plain": {"A": 9.0, "B": 2.0}, "delay": {"A": 9.0, "B": 2.0}, "rules": {"A": 9.0, "B": 2.0, "R": 19.0, "T2": 28.0}, "delay+rules": {"A": 9.0, "B": 2.0, "R": 11.0}}
-VOLS = ["off", "true", "num", "obj"]
+VOLS = ["off", "true", "num", "obj", "divobj"]   # divobj: an initialised StochasticTimeThresholdVolume that divides inside the window
 
 def gen_cases(seed, tier):
     cases = []
@@ -34,7 +34,7 @@ def gen_cases(seed, tier):
 
 def impl_case(case):
     import numpy as np, warnings
-    from bioscrape.types import Model, Volume
+    from bioscrape.types import Model, Volume, StochasticTimeThresholdVolume
     from bioscrape.simulator import py_simulate_model, ModelCSimInterface, SafeModelCSimInterface
     from bioscrape.random import py_seed_random
     warnings.simplefilter("ignore")
@@ -45,8 +45,12 @@ def impl_case(case):
     if case["volume"] == "off": kw["volume"] = False
     elif case["volume"] == "true": kw["volume"] = True
     elif case["volume"] == "num": kw["volume"] = 1.7
-    else:
+    elif case["volume"] == "obj":
         v = Volume(); v.py_set_volume(1.3); kw["volume"] = v
+    else:
+        # cycle 1.0, division volume 2.0, 2% noise, initial volume 1.0: divides near t = 1 (window is [0, 2])
+        v = StochasticTimeThresholdVolume(1.0, 2.0, 0.02); py_seed_random(case["seed"] + 7)
+        v.py_initialize(np.array([m["x0"][s_] for s_ in M.get_species_list()], dtype=float), np.array(M.get_parameter_values(), dtype=float), 0.0, 1.0); kw["volume"] = v
     if case["via"] in ("model", "both"): kw["Model"] = M
     if case["via"] in ("interface", "both"):
         kw["Interface"] = SafeModelCSimInterface(M) if case["safe"] else ModelCSimInterface(M)
@@ -75,7 +79,7 @@ def impl_case(case):
 def driver_line(case, r):
     b = lambda x: "1" if x else "0"
     d = {None: "none", False: "false", True: "true"}[case["delay"]]
-    v = {"off": "off", "true": "true", "num": "numpos", "obj": "obj"}[case["volume"]]
+    v = {"off": "off", "true": "true", "num": "numpos", "obj": "obj", "divobj": "obj"}[case["volume"]]
     return " ".join(["dispatch", b(case["via"] in ("model", "both")), b(case["via"] in ("interface", "both")), b(case["stochastic"]), d, b(case["safe"]), v, b(case["df"])])
 
 KIND_TYPE = {"det": "SSAResult", "ssa": "SSAResult", "volssa": "VolumeSSAResult", "delayssa": "DelaySSAResult", "delayvolssa": "DelayVolumeSSAResult"}
@@ -98,7 +102,9 @@ def oracle(case, r):
         return None if ("Model" in r["msg"] or "Interface" in r["msg"] or "option" in r["msg"].lower()) else "from inside: ValueError not about the options: %s (%s)" % (r["msg"], tag)
     if r["outcome"] != "returned": return "from inside: %s: %s (%s)" % (r["outcome"], r.get("msg"), tag)
     T = r["T"]; sp = r["species"]; uses_vol = case["volume"] != "off" and (case["stochastic"] or case["delay"] is True)
-    if r["nrows"] != len(T) and not r.get("divided"): return "rows: %d rows for %d time points (%s)" % (r["nrows"], len(T), tag)
+    if r.get("has_volume") and r["nvol"] != r["nrows"]: return "rows: %d rows but %d volume entries (%s)" % (r["nrows"], r["nvol"], tag)
+    if r["nrows"] > len(T) or r["nrows"] < 1: return "rows: %d rows for %d time points (%s)" % (r["nrows"], len(T), tag)
+    if r["nrows"] != len(T) and not (case["volume"] == "divobj" and uses_vol): return "rows: %d rows for %d time points (%s)" % (r["nrows"], len(T), tag)
     if r["time"] is None or any(t is None for t in r["time"]) or [float(t) for t in r["time"]] != T[: r["nrows"]]:
         return "time axis: %r is not the requested times (%s)" % (r["time"], tag)
     if case["df"]:
@@ -116,5 +122,7 @@ def nontrivial(case): return True
 def key(case): return json.dumps(case, sort_keys=True)
 def stats(cases):
     from collections import Counter
-    return {"per_model": dict(Counter(c["model"] for c in cases)), "exhaustive_option_combinations": 192}
-def extra_checks(ctx): return {"coverage": {"exhaustive": True}}
+    return {"per_model": dict(Counter(c["model"] for c in cases)), "exhaustive_option_combinations": 240}
+def extra_checks(ctx):
+    ended = sum(1 for r in ctx["impl_res"] if isinstance(r, dict) and r.get("outcome") == "returned" and r.get("nrows", 0) < len(r.get("T", [])))
+    return {"coverage": {"exhaustive": True, "results_ended_by_cell_division": ended}}
